@@ -2,7 +2,11 @@
 
 package store
 
-import "sync/atomic"
+import (
+	"fmt"
+	"sync"
+	"sync/atomic"
+)
 
 // VerifHookFn receives one call per crash-point marker of the store: the marker's name, the height
 // of the operation (0 where the call site does not know it) and the path of the file-system entry
@@ -24,5 +28,13 @@ func SetVerifHook(f VerifHookFn) {
 func verifMark(ev string, height uint64, path string) {
 	if h := verifHook.Load(); h != nil {
 		(*h)(ev, height, path)
+	}
+}
+
+// verifMarkLock marks the acquisition / release of one lock of a multiLock; the lock's identity is
+// passed in the path argument.
+func verifMarkLock(ev string, lk *sync.RWMutex) {
+	if h := verifHook.Load(); h != nil {
+		(*h)(ev, 0, fmt.Sprintf("%p", lk))
 	}
 }
